@@ -48,6 +48,8 @@ control_connection::control_connection(net_context & net_context)
 
 void control_connection::connect(std::string_view hostname, std::uint16_t port)
 {
+    skip_linefeed_ = false;
+
     boost::asio::ip::tcp::resolver resolver(socket_->get_executor());
     boost::system::error_code ec;
 
@@ -137,6 +139,21 @@ reply control_connection::recv()
 
     line = read_line();
 
+    /* The CR LF that ends a reply can be split between two network reads. The
+     * CR alone is then taken as the line terminator (a line may also end with
+     * a bare CR) and the LF arrives as an empty line in front of the next
+     * reply: skip it.
+     */
+    if (skip_linefeed_)
+    {
+        skip_linefeed_ = false;
+
+        if (line == "\n")
+        {
+            line = read_line();
+        }
+    }
+
     if (!try_parse_status_code(line, code))
     {
         throw ftp_exception("Cannot parse a status code from the server reply: '%1%'.", line);
@@ -169,6 +186,9 @@ reply control_connection::recv()
     {
         status_string = line;
     }
+
+    /* Does the reply end with a bare CR (so far)? */
+    skip_linefeed_ = !status_string.empty() && status_string.back() == '\r';
 
     if (!status_string.empty() && status_string.back() == '\n')
     {
